@@ -2,6 +2,7 @@
 CONSTANTS LoopDelayOwnFreeVars = FALSE
           LoopDurationMapped = TRUE
           ParamValuesReachDelays = TRUE
+          ChecksBeforeSave = TRUE AliasesReachDurations = TRUE
           Family = "cex"
 INIT Init
 NEXT Next
